@@ -7,6 +7,7 @@ import SonicModel.Lemmas.EntryIff
 import SonicModel.Impl.Entry
 import SonicModel.Lemmas.StrictLazy
 import SonicModel.Lemmas.DomParseProof
+import SonicModel.Lemmas.NumSkipProof
 namespace Sonic.Thm.C02
 open Sonic Gen
 
@@ -86,6 +87,20 @@ theorem decoding_parser_accepts_wellformed (buf : Buf) (s e : Nat) (h : Spec.doc
     (DomP.document buf).isSome := by
   obtain ⟨t, _, ht⟩ := DomP.document_of_strict buf s e h
   rw [ht]; rfl
+
+/-- **the 32-lane loop of `do_skip_number` is the scalar scan** (Impl/NumSkip.lean: blocks of 32 bytes while 32 remain, the
+    fraction's first digit checked inside the block, the shifted mask, the two `continue`s that carry `is_float`, the scalar
+    tail): for every buffer and every start — whatever the alignment of digits, dot and exponent to the blocks — it answers
+    exactly what the scalar model answers, which is the grammar's number rule (`skipNumber_eq_spec`) -/
+theorem number_block_loop_is_scalar_scan (buf : Buf) (first : UInt8) (i : Nat) :
+    Impl.doSkipNumberB true buf first i = Impl.doSkipNumber buf first i :=
+  doSkipNumberB_eq buf first i
+
+/-- … and the flag carried over the early `continue` is what makes it so: without it (the change three seeding sub-agents
+    made independently: C02c, C14c, C04d) a second fraction is swallowed when the dot stands in lane 30 of a block -/
+theorem number_block_loop_needs_the_flag :
+    Impl.numLoop false flagWitness 70 0 false = .ok 34 ∧ Impl.numLoop true flagWitness 70 0 false = .ok 32 ∧
+      Impl.numTail flagWitness 0 false = .ok 32 := by decide +kernel
 
 /-! non-vacuity: concrete inputs on which the hypotheses hold and both sides are non-trivial
     (byte arrays written out because string literals do not reduce in the kernel) -/
